@@ -48,6 +48,7 @@ def value_alphabet():
         ('any-float', 'any', 0.3), ('any-int', 'any', 7), ('any-nested', 'any', {'k': [0.1, D('0.1'), 1]}),
         ('object-taglike', 'object', {'type{date}': 'x'}), ('object-taglike-valid', 'object', {'type{decimal}': '1.5'}),
         ('string', 'string', 'é😀  "q" \\ \n\tend'), ('string', 'string', ''), ('string', 'string', '{"type{date}": "2020-01-01"}'),
+        ('string-linesep', 'string', 'a\x85b\u2028c\u2029d\x0b\x0c\x1ce'), ('object-linesep', 'object', {'k\u2028': ['\x85', {'n': '\u2029'}]}),
         ('bool', 'boolean', True), ('null', 'string', None),
         ('time-subsecond', 'time', datetime.time(1, 2, 3, 500000)),
         ('datetime-subsecond', 'datetime', dt(2020, 1, 2, 3, 4, 5, 123456)),
